@@ -221,6 +221,64 @@ def param_graph(cx, method="euler", kind="derived", reverse=False):
     return "ok"
 
 
+def option_flow(cx, case="sequence"):
+    """which options the backward integration runs with.  The method is a caller-supplied callable that records the options it is
+    given and delegates to the real rk4 / euler steppers.  'sequence': three calls in one process with different options and no
+    bck_options (the backward of each call must see the options of ITS OWN forward, nothing left over from an earlier call);
+    'bck_options': a different method and option for the backward pass (the forward callable runs exactly once, the backward
+    one does the adjoint integration and sees the forward options overridden by bck_options)."""
+    from xitorch._impls.integrate.ivp.explicit_rk import rk4_ivp, fwd_euler_ivp
+    k = cx.sym("k", (1,), requires_grad=True)
+    y0 = cx.sym("y0", (1,), requires_grad=True)
+    ts = cx.const(torch.tensor([0.25, 0.75, 1.0], dtype=torch.float64))
+    w = cx.sym("w", (3, 1))
+    seen = []
+
+    def f(t, y, k_):
+        return -k_ * y + t
+
+    def fwd_method(fcn, ts_, y0_, params, **kw):
+        seen.append(("fwd_method", dict(kw)))
+        return rk4_ivp(fcn, ts_, y0_, params)
+
+    def bck_method(fcn, ts_, y0_, params, **kw):
+        seen.append(("bck_method", dict(kw)))
+        return rk4_ivp(fcn, ts_, y0_, params)
+    if case == "sequence":
+        with torch.no_grad():
+            solve_ivp(f, ts, y0, params=(k,), method=fwd_method, myopt=1, other=10)
+        n1 = len(seen)
+        y = solve_ivp(f, ts, y0, params=(k,), method=fwd_method, myopt=2)
+        g2 = grads((w * y).sum(), [k, y0])
+        calls2 = seen[n1:]
+        cx.claim_true("second call: forward and backward see exactly the options of the second call",
+                      len(calls2) >= 2 and all(kw == {"myopt": 2} for _, kw in calls2), detail=str(calls2))
+        n2 = len(seen)
+        y = solve_ivp(f, ts, y0, params=(k,), method=fwd_method)
+        g3 = grads((w * y).sum(), [k, y0])
+        calls3 = seen[n2:]
+        cx.claim_true("third call without options: forward and backward see no option",
+                      len(calls3) >= 2 and all(kw == {} for _, kw in calls3), detail=str(calls3))
+        for nm, a, b in zip(["k", "y0"], g2, g3):
+            cx.claim_eq("same gradient from both calls: d/d" + nm, a, b)
+    else:
+        y = solve_ivp(f, ts, y0, params=(k,), method=fwd_method, myopt=1, other=10,
+                      bck_options={"method": bck_method, "myopt": 5})
+        nf = len(seen)
+        cx.claim_true("forward: the forward callable once, with the forward options",
+                      seen == [("fwd_method", {"myopt": 1, "other": 10})], detail=str(seen))
+        g = grads((w * y).sum(), [k, y0])
+        back = seen[nf:]
+        cx.claim_true("backward: only the backward callable, with the forward options overridden by bck_options",
+                      len(back) >= 1 and all(nm == "bck_method" and kw == {"myopt": 5, "other": 10} for nm, kw in back),
+                      detail=str(back))
+        yref = solve_ivp(f, ts, y0, params=(k,), method="rk4")
+        gref = grads((w * yref).sum(), [k, y0])
+        for nm, a, b in zip(["k", "y0"], g, gref):
+            cx.claim_eq("gradient equals the built-in rk4/rk4 one: d/d" + nm, a, b)
+    return "ok"
+
+
 def adaptive_graph(cx, method="rk45"):
     """adaptive methods: the graph-recording backward (incl. the time points) works and agrees with the plain one
     (step acceptance forced: the error norm is replaced by 0.5)"""
@@ -259,6 +317,8 @@ def configs(tier):
         add("param_graph/euler/%s" % kind, param_graph, method="euler", kind=kind)
     add("param_graph/rk4/derived", param_graph, method="rk4", kind="derived")
     add("param_graph/euler/derived/decreasing", param_graph, method="euler", kind="derived", reverse=True)
+    add("option_flow/sequence", option_flow, case="sequence")
+    add("option_flow/bck_options", option_flow, case="bck_options")
     add("representations/euler/3points", representations, method="euler", npoints=3)
     add("representations/rk4/2points", representations, method="rk4", npoints=2)
     add("representations/euler/3points/decreasing", representations, method="euler", npoints=3, reverse=True)
